@@ -405,6 +405,19 @@ Proof.
   destruct (H d Hd) as (A & _). exact (member_flag_spec d raw _ Hr A).
 Qed.
 
+(* a v4 member: the sample's raw byte is the derived one (stored | data_lost | postproc), whatever was selected *)
+Lemma concat_v4_member_sample members h d s :
+  ends_whole h = true -> p_fmt d = FV4 -> 0 <= s_stored s < 256 ->
+  In d (c_members (cds_run cur_plumbing flag_names (cds_open cur_plumbing flag_names members) h)) ->
+  member_flag d (v4_raw s)
+  = existsb (fun i => Z.testbit (spec_v4_raw s) i
+                      && Z.testbit (spec_mask_v34 (spec_wanted (last_whole_f h (SelStr "all")))) i)
+            [0;1;2;3;4;5;6;7].
+Proof.
+  intros E Hf Hs Hd. rewrite v4_raw_spec.
+  rewrite (concat_flags_after_history members h d _ E (spec_v4_raw_range s Hs) Hd). rewrite Hf. reflexivity.
+Qed.
+
 Lemma concat_weights_after_history members h d w :
   ends_whole h = true -> p_fmt d <> FV4 ->
   In d (c_members (cds_run cur_plumbing flag_names (cds_open cur_plumbing flag_names members) h)) ->
